@@ -162,7 +162,7 @@ func TestVerif_C02(t *testing.T) {
 	}
 	long := strings.Repeat("N", 255)
 	utf := "ключ"
-	names := []string{"a", cA, cB}
+	names := []string{"ä", cA, cB} // (a multi-byte name: byte and character counts differ)
 	vals := []string{"i32a", "i32b", "s40", "f64x3", "u8"}
 	depth := 3
 	if r.Thorough() {
@@ -437,6 +437,95 @@ func TestVerif_C02(t *testing.T) {
 					r.Fail(fmt.Sprintf("long/%s/%s/%s", tg.kind, shape, bad), detail)
 				} else {
 					r.Outcome("long-ok")
+				}
+			}
+		}
+	}
+	// refused-write family: k compact attributes (k in {1,3,7}), in the creating session or a
+	// reopened one, then a write that is refused (a value no storage accepts, values just below
+	// the attribute heap's capacity, an oversized name), then every single follow-up of a small
+	// alphabet on the same handle; the refused write must not count: the reopened attribute set
+	// equals the map model of the accepted operations.
+	for _, k := range []int{1, 3, 7} {
+		for _, reopened := range []bool{false, true} {
+			for _, bad := range []string{"attr-value-oversize", "attr-value-near-heap-capacity-a", "attr-value-near-heap-capacity-b", "attr-name-oversize"} {
+				for _, fu := range [][]vfOp{
+					nil,
+					{{Op: "attr", Path: "/d", Name: "z", Value: "i32a"}},
+					{{Op: "attr", Path: "/d", Name: "L0000", Value: "s40"}},
+					{{Op: "delattr", Path: "/d", Name: "L0000"}},
+					{{Op: "attr", Path: "/d", Name: "z", Value: "i32a"}, {Op: "delattr", Path: "/d", Name: "z"}},
+				} {
+					h := []vfOp{{Op: "mkds", Path: "/d", Type: "f64", Dims: []uint64{3}}}
+					np := len(h)
+					for i := 0; i < k; i++ {
+						h = append(h, vfOp{Op: "attr", Path: "/d", Name: fmt.Sprintf("L%04d", i), Value: []string{"i32a", "s1", "f64"}[i%3]})
+					}
+					if reopened {
+						h = append(h, vfOp{Op: "reopen"})
+					}
+					h = append(h, vfOp{Op: "bad", Bad: bad, Path: "/d"})
+					h = append(h, fu...)
+					ex := vfRun(dir, nil, h, true)
+					r.Transitions(1)
+					name := fmt.Sprintf("refused-write/k=%d/reopened=%v/%s/%s", k, reopened, bad, vfOpsString(fu))
+					r.Case(name)
+					model := map[string]string{}
+					refused := false
+					for i, o := range h[np:] {
+						if o.Op == "bad" {
+							refused = ex.Errs[np+i] != nil
+							continue
+						}
+						if ex.Errs[np+i] != nil || o.Path != "/d" {
+							continue
+						}
+						switch o.Op {
+						case "attr":
+							model[o.Name] = o.Value
+						case "delattr":
+							delete(model, o.Name)
+						}
+					}
+					if !refused {
+						r.Outcome("call-accepted")
+						continue
+					}
+					detail := map[string]any{"family": name, "history": vfOpsString(h), "ops": h}
+					tree := ex.Closed
+					if tree == nil {
+						detail["open_error"] = fmt.Sprint(ex.ClosedErr)
+						r.Fail("refused-write/"+bad+"/file-unopenable", detail)
+						continue
+					}
+					ob := tree.Get("/d")
+					if ob == nil || ob.AttrErr {
+						r.Fail("refused-write/"+bad+"/attributes-unreadable", detail)
+						continue
+					}
+					got := map[string]vfAttr{}
+					problem := ""
+					for _, a := range ob.Attrs {
+						got[a.Name] = a
+					}
+					for n, kind := range model {
+						if a, ok := got[n]; !ok {
+							problem = "missing"
+						} else if m := vfAttrMatches(a, kind); m != "" {
+							problem = "value-" + m
+						}
+					}
+					for n := range got {
+						if _, ok := model[n]; !ok {
+							problem = "extra"
+						}
+					}
+					if problem != "" {
+						detail["got_count"], detail["model_size"] = len(got), len(model)
+						r.Fail("refused-write/"+bad+"/"+problem, detail)
+					} else {
+						r.Outcome("refused-write-ok")
+					}
 				}
 			}
 		}
